@@ -1395,8 +1395,11 @@ def chunkstore_put_ttl (ttl : Int) (config_ : Cfg) : Int :=
 ]
 
 PUBLISH_SITES = [
-    {"name": "publish_shards_expires", "assign_member": "expires_at", "of": "record", "params": "(ttl : Int) (steady_now : Int)", "fallback": """
-def publish_shards_expires (ttl : Int) (steady_now : Int) : Int :=
+    # `record_expires_at`: the deadline of the record already in the table for that chunk (0 = none); the code
+    # as it stands builds a fresh record and ignores it, a variant that refreshes in place would depend on it
+    {"name": "publish_shards_expires", "assign_member": "expires_at", "of": "record",
+     "params": "(ttl : Int) (steady_now : Int) (record_expires_at : Int)", "fallback": """
+def publish_shards_expires (ttl : Int) (steady_now : Int) (record_expires_at : Int) : Int :=
   steady_now + ttl * 1000000000"""},
 ]
 
